@@ -38,7 +38,9 @@ fn run_step(core: &mut crate::Hypercore, m: &Model, st: &Step) -> Result<(), Str
 
 /// C02 (+C07 when `torn`): run the history once, recording the journal and the op index at every call boundary; then for every
 /// journal prefix (and, for writes, torn byte prefixes of the next op) rebuild the files, reopen and compare with before/after.
-fn crash_check(steps: &[Step], torn: bool) -> Option<String> {
+fn crash_check(steps: &[Step], torn: bool) -> Option<String> { crash_check_ro(steps, torn, false) }
+/// `read_only_last`: after the history, call make_read_only() (it changes no observation of the log) and crash inside it too
+fn crash_check_ro(steps: &[Step], torn: bool, read_only_last: bool) -> Option<String> {
     let r = guarded(|| -> Option<String> {
         let disk = SharedDisk::new();
         let mut core = match create_core(&disk) { Ok(c) => c, Err(e) => return Some(format!("create: {e}")) };
@@ -47,6 +49,10 @@ fn crash_check(steps: &[Step], torn: bool) -> Option<String> {
         for st in steps {
             if let Step::Reopen = st { drop(core); core = match open_core(&disk) { Ok(c) => c, Err(e) => return Some(format!("reopen: {e}")) }; }
             else { if let Err(e) = run_step(&mut core, &model, st) { return Some(format!("history step failed without any fault: {e}")); } apply_model(&mut model, st); }
+            bounds.push((disk.journal().len(), model.clone()));
+        }
+        if read_only_last {
+            if let Err(e) = block_on(core.make_read_only()) { return Some(format!("make_read_only failed without any fault: {e}")); }
             bounds.push((disk.journal().len(), model.clone()));
         }
         let journal = disk.journal();
@@ -77,8 +83,11 @@ fn crash_check(steps: &[Step], torn: bool) -> Option<String> {
                 // the recovered core stays usable
                 let mut m2 = if a.is_none() { before.clone() } else { after.clone() };
                 let st = Step::Append(vec![2]);
-                if let Err(e) = run_step(&mut rc, &m2, &st) { return Some(format!("crash after {k}: append on the recovered core failed: {e}")); }
-                apply_model(&mut m2, &st);
+                match run_step(&mut rc, &m2, &st) {
+                    Ok(()) => apply_model(&mut m2, &st),
+                    Err(e) if read_only_last && !rc.info().writeable => { let _ = e; }   // recovered on the read-only side of make_read_only
+                    Err(e) => return Some(format!("crash after {k}: append on the recovered core failed: {e}")),
+                }
                 drop(rc);
                 let mut rc2 = match open_core(&d2) { Ok(c) => c, Err(e) => return Some(format!("crash after {k}: second reopen failed: {e}")) };
                 if let Some(m) = same(&mut rc2, &m2) { return Some(format!("crash after {k}: after one more append and reopen: {m}")); }
@@ -111,6 +120,13 @@ fn search_torn(rng: &mut Rng, budget: usize) -> Option<String> {
     for _ in 0..budget.min(12) { let st = gen(rng, 6); if let Some(m) = crash_check(&st, true) { let e = enc(&st); return Some(format!("{{\"history\":\"{}\",\"why\":\"{}\"}}|{}", e, m, e)); } }
     None
 }
+fn search_crash_ro(rng: &mut Rng, budget: usize) -> Option<String> {
+    let fixed = ["a1;a1;a1", "a1", "a1;a1", "a2,3;a1;c0,1;a1", "a1;a1;a1;a1;a1;a1;a1"];
+    for f in fixed { let st = dec(f); if let Some(m) = crash_check_ro(&st, false, true) { return Some(format!("{{\"history\":\"{};make_read_only\",\"why\":\"{}\"}}|{}", f, m, f)); } }
+    for _ in 0..budget.min(40) { let st = gen(rng, 6); if let Some(m) = crash_check_ro(&st, false, true) { let e = enc(&st); return Some(format!("{{\"history\":\"{};make_read_only\",\"why\":\"{}\"}}|{}", e, m, e)); } }
+    None
+}
+fn rerun_crash_ro(input: &str) -> Option<String> { crash_check_ro(&dec(input.rsplit('|').next().unwrap()), false, true) }
 fn rerun_crash(input: &str) -> Option<String> { crash_check(&dec(input.rsplit('|').next().unwrap()), false) }
 fn rerun_torn(input: &str) -> Option<String> { crash_check(&dec(input.rsplit('|').next().unwrap()), true) }
 
@@ -171,6 +187,8 @@ pub fn contracts() -> Vec<Contract> {
         Contract { name: "e2e.crash_prefixes", covers: &["Hypercore::append_batch", "Hypercore::clear", "Hypercore::flush_bitfield_and_tree_and_oplog", "Hypercore::new", "Oplog::open", "Oplog::flush", "Oplog::insert_header",
             "Oplog::append_entries", "Oplog::get_next_header_oplog_slot_and_bit_value", "MerkleTree::flush", "MerkleTree::commit", "DynamicBitfield::flush", "Hypercore::should_flush_bitfield_and_tree_and_oplog"],
             search: search_crash, rerun: rerun_crash },
+        Contract { name: "e2e.crash_read_only", covers: &["Hypercore::make_read_only", "Hypercore::flush_bitfield_and_tree_and_oplog", "Oplog::flush", "Oplog::insert_header", "Oplog::open"],
+            search: search_crash_ro, rerun: rerun_crash_ro },
         Contract { name: "e2e.torn_writes", covers: &["Oplog::validate_leader", "Oplog::open"], search: search_torn, rerun: rerun_torn },
         Contract { name: "e2e.fault_injection", covers: &["Storage::flush_infos", "Storage::read_infos_to_vec", "Hypercore::append_batch", "Hypercore::clear", "Hypercore::get", "Hypercore::flush_bitfield_and_tree_and_oplog", "Hypercore::new", "Hypercore::byte_range"],
             search: search_fault, rerun: rerun_fault },
